@@ -43,6 +43,19 @@ def closures(tier: str) -> List[Dict[str, Any]]:
                                "message_defs": {"FAM": {"id": 4400, "fields": {"blk": "BLK[BASE]", "n": "int16[LEN3]"}}}},
                  "consts.yaml": {"constants": {"BASE": k}}}
         out.append({"files": defx.Program(files).to_json()["files"], "kw": {"import_coredefs": False}, "label": f"expression family BASE={k}", "feats": [], "family": True})
+    # closures whose root file carries compiler options (what the command line reads from the file is passed as kw, as main() does)
+    mis = {"struct_defs": {"SO": {"fields": {"a": "int8", "b": "double", "c": "int16"}}},
+           "message_defs": {"MO": {"id": 4500, "fields": {"x": "int8", "s": "SO", "y": "double", "z": "char[3]"}},
+                            "MO2": {"id": 4501, "fields": {"p": "int16", "q": "int64"}}}}
+    ali = {"message_defs": {"MA": {"id": 4510, "fields": {"x": "int32", "x2": "int32", "y": "double"}}}}
+    for label, opts, kw, body in (
+            ("VALIDATE_ALIGNMENT false in the root file, misaligned definitions", {"IMPORT_COREDEFS": "false", "VALIDATE_ALIGNMENT": "false"},
+             {"import_coredefs": False, "validate_alignment": False}, mis),
+            ("AUTO_PAD false in the root file, aligned definitions", {"IMPORT_COREDEFS": "false", "AUTO_PAD": "false"},
+             {"import_coredefs": False, "auto_pad": False}, ali),
+            ("default options, misaligned definitions (padding added)", {"IMPORT_COREDEFS": "false"}, {"import_coredefs": False}, mis)):
+        files = {"root.yaml": {"compiler_options": opts, **body}}
+        out.append({"files": defx.Program(files).to_json()["files"], "kw": kw, "label": label, "feats": []})
     seqs = c04.sequences("quick")[:: 40]
     prog, _ = c04.batch_program(seqs, 2)
     out.append({"files": prog.to_json()["files"], "kw": {}, "label": "packed C04-style program (diamond imports)", "feats": []})
@@ -140,9 +153,17 @@ def roundtrip(src: str, combined: str, cl, work: str) -> List[Dict[str, Any]]:
         sys.argv = argv
     if code != 0:
         return [{"kind": "combined-yaml-does-not-recompile", "exit": code}]
-    # the combined file switches the core import off itself; parse it the way the CLI did
+    # parse the combined file the way the CLI did: with the options the file itself carries
     try:
-        p1 = defx.parse_model(combined, import_coredefs=False)
+        from pyrtma.parser import Parser
+
+        with contextlib.redirect_stdout(io.StringIO()), contextlib.redirect_stderr(io.StringIO()):
+            po = Parser()
+            fo = {k: v.value for k, v in po.parse_compiler_options(combined).items()}
+        for h in list(po.logger.handlers):
+            po.logger.removeHandler(h)
+        p1 = defx.parse_model(combined, import_coredefs=bool(fo.get("IMPORT_COREDEFS", True)), validate_alignment=bool(fo.get("VALIDATE_ALIGNMENT", True)),
+                              auto_pad=bool(fo.get("AUTO_PAD", True)))
     except Exception as e:
         return [{"kind": "combined-yaml-does-not-recompile", "exit": f"{type(e).__name__}: {str(e)[:120]}"}]
     s1 = defx.sig_parser(p1)
